@@ -16,7 +16,7 @@
    Interpretation I-C18b: with no format key AND no requirement key the library returns [] (documented by its own unit
    test "0 FC, 0 RC"), not the one empty assignment; C18_generate_no_keys states it, the product theorems assume m + n >= 1. *)
 From Coq Require Import Sorting.Sorted Sorting.Permutation.
-From Ahb Require Import Model.Prelude Model.Grammar Gen.Gen_logic Gen.Gen_ranges Model.Lex Model.Keys Proofs.C18_keys.
+From Ahb Require Import Model.Prelude Model.Grammar Gen.Gen_logic Gen.Gen_ranges Model.Lex Model.Keys Proofs.C18_keys Proofs.C01_lexprint Proofs.C01_print Proofs.C01_atoms.
 
 (* every numeral is in exactly one class, decided by its integer value with the documented bounds *)
 Theorem C18_ranges_partition : forall (k : text) (n : Z), key_int k = Ok n ->
@@ -135,3 +135,10 @@ Theorem C18_example_36 :
   length (generate [t501] [t901; t902] [t1; t2]) = 36.
 Proof. exact example_36. Qed.
 Print Assumptions C18_example_36.
+
+(* the keys of a parse tree are the keys as written: any tree the parser's resolution admits for a written expression carries exactly the
+   atoms of its tokens, in written order (nothing dropped, duplicated or reordered by parsing) *)
+Theorem C18_tree_atoms_are_the_written_atoms : forall l its e,
+  group (map (fun p : text * ptok => tok_of (snd p)) l) = Some its -> Rc its e -> Keys.atoms e = tatoms (map (fun p => tok_of (snd p)) l).
+Proof. exact written_key_atoms. Qed.
+Print Assumptions C18_tree_atoms_are_the_written_atoms.
